@@ -1055,6 +1055,9 @@ func (p *Parser) parseIf() ast.Node {
 			p.nextToken() // move to the "if"
 			nestedIfToken := p.curToken
 			nestedIf := p.parseIf()
+			if nestedIf == nil {
+				return nil
+			}
 			alternative := ast.NewBlock(nestedIfToken, []ast.Node{nestedIf})
 			return ast.NewIf(ifToken, cond, consequence, alternative)
 		}
